@@ -229,7 +229,11 @@ func c02Run(c *Ctx) {
 			sort.Strings(names)
 			if len(names) > 0 {
 				victim := names[r.Intn(len(names))]
-				feed[victim] = variantOf(r, feed[victim], r.Bool())
+				if v := feed[victim]; v.Rank() > 1 && r.Chance(0.3) { // one sample without its batch axis
+					feed[victim] = r.Tensor(v.DT, v.Shape[1:], gen.FillSmall, 2)
+				} else {
+					feed[victim] = variantOf(r, feed[victim], r.Bool())
+				}
 			}
 		default:
 			action = "fresh"
